@@ -22,6 +22,8 @@ EXPLANATION = (
     " stored 0 is the text 0."
     " Added in rounds 8 and 9: (O16.5) a trailing row without items leaves something in its line; (O16.7) the"
     " Sheet row's number is the number the data format stores."
+    " Added in round 10: (O16.5) the workbook must not be created with an option that drops blank cells"
+    " (constant_memory); options are classified in two tables, an unknown one is undecided."
 )
 ASSUMPTIONS = ["xlrd types cells and converts dates as documented; str(float) is the shortest text denoting the value"]
 
